@@ -28,8 +28,8 @@ def suite_matrix(ctx):
     s = Suite('matrix')
     s.exhaustive = True
 
-    def run(std, fn, reply=None):
-        client, conn = cl.make_client(cl.Cfg(std=std), extra={'data_identifiers': {}, 'extended_data_size': 1})
+    def run(std, fn, reply=None, extra=None):
+        client, conn = cl.make_client(cl.Cfg(std=std), extra=dict({'data_identifiers': {}, 'extended_data_size': 1}, **(extra or {})))
         if reply is not None:
             conn.script = [(1, reply)]
         how, verdict, flags, payload, exc, r = cl.observe_outer(conn, lambda: fn(client))
@@ -77,14 +77,15 @@ def suite_matrix(ctx):
                 if sends != [want]:
                     s.fail(dict(rec, observed=[x.hex() for x in sends], required=want.hex()))
         for n in range(0, 9):
-            reply = bytes([0x50] + ([3] + [0] * (n - 1) if n else []))
-            verdict, sends, touched = run(std, lambda c: c.change_session(3), reply)
-            s.evaluations += 1
-            s.distinct.add('dsc:%d:%d' % (std, n))
-            ok = (n == 5) if std >= 2013 else (n >= 1)
-            if (verdict == 'ok') != ok:
-                s.fail({'site': 'change_session', 'edition': std, 'reply_len': n, 'input': reply.hex(), 'observed': verdict,
-                        'required': 'accepted' if ok else 'invalid response'})
+            for ust in (True, False):       # the four timing bytes are demanded from 2013 on whether the client is going to use them or not
+                reply = bytes([0x50] + ([3] + [0] * (n - 1) if n else []))
+                verdict, sends, touched = run(std, lambda c: c.change_session(3), reply, extra={'use_server_timing': ust})
+                s.evaluations += 1
+                s.distinct.add('dsc:%d:%d:%s' % (std, n, ust))
+                ok = (n == 5) if std >= 2013 else (n >= 1)
+                if (verdict == 'ok') != ok:
+                    s.fail({'site': 'change_session', 'edition': std, 'reply_len': n, 'use_server_timing': ust, 'input': reply.hex(), 'observed': verdict,
+                            'required': 'accepted' if ok else 'invalid response'})
     s.sample({'edition': 2013, 'call': 'read_dtc_information(0x42)', 'required': 'NotImplementedError, nothing sent'})
     return s
 
@@ -116,10 +117,16 @@ def suite_config(ctx):
         c0 = rng.choice([2006, 2013, 2020])
         changes = [rng.choice(cands) if rng.random() < 0.5 else rng.choice([2006, 2013, 2020]) for _ in range(rng.randrange(1, ctx.n(6, 30)))]
         conn = cl.stub.StubConn(cl.CLOCK)
-        c = Client(conn, config={'standard_version': c0})
+        if rng.random() < 0.3:
+            # the edition comes from a direct assignment to the configuration dictionary (the style of the documentation's examples), not from the constructor
+            c = Client(conn, config={'standard_version': rng.choice([2006, 2013, 2020])})
+            c.config['standard_version'] = c0
+        else:
+            c = Client(conn, config={'standard_version': c0})
         outs = []
         for i, v in enumerate(changes):
             raised = False
+            before = c.config['standard_version']
             try:
                 if rng.random() < 0.5:
                     c.set_config('standard_version', v)
@@ -132,6 +139,10 @@ def suite_config(ctx):
             if stored not in (2006, 2013, 2020):
                 s.fail({'site': 'set_config', 'input': 'start=%d changes=%s' % (c0, changes[:i + 1]), 'value': v, 'observed': 'edition in force %d (raised=%s)' % (stored, raised),
                         'required': 'edition in force is always 2006, 2013 or 2020'})
+                break
+            if raised and stored != before:
+                s.fail({'site': 'set_config', 'input': 'start=%d changes=%s' % (c0, changes[:i + 1]), 'value': v, 'observed': 'after the refused change the edition in force is %d' % stored,
+                        'required': 'the edition that was in force before the refused change: %d' % before})
                 break
             if (v not in (2006, 2013, 2020)) != raised:
                 s.fail({'site': 'set_config', 'input': 'start=%d changes=%s' % (c0, changes[:i + 1]), 'value': v, 'observed': 'raised=%s' % raised, 'required': 'raises iff invalid'})
